@@ -27,6 +27,18 @@ func coqPeer(p int) string {
 	return fmt.Sprintf("(PKey %d)", p)
 }
 
+func coqDecl(d int) string {
+	switch {
+	case d == DeclConsistent:
+		return "None"
+	case d >= 1 && d <= NServers:
+		return fmt.Sprintf("(Some %d)", d-1)
+	case d == DeclZero:
+		return "(Some 100)"
+	}
+	return "(Some 101)"
+}
+
 func coqOpt(v int) string {
 	if v < 0 {
 		return "None"
@@ -39,7 +51,7 @@ func coqOpt(v int) string {
 func CoqCase(sc *Scenario, r *Result) string {
 	var msgs, obs []string
 	for i, m := range sc.Msgs {
-		msgs = append(msgs, fmt.Sprintf("I %d %s %s %s %s %d %d", m.Inst, coqPeer(m.Peer), coqOpt(r.FromIDs[i]),
+		msgs = append(msgs, fmt.Sprintf("I %d %s %s %s %s %s %d %d", m.Inst, coqPeer(m.Peer), coqDecl(m.Decl), coqOpt(r.FromIDs[i]),
 			lib.Bool(m.OtherTree), coqOpt(m.Wire), m.Type, m.Payload))
 	}
 	for _, d := range r.Deliveries {
